@@ -1,4 +1,5 @@
 import DuneVerif.Proofs.C02FloatLU
+import DuneVerif.Model.C02Top
 /-!
 # C02 — the LU path has no absolute scale
 
@@ -501,5 +502,166 @@ theorem invertLU_scale {ι : K → K} (H : ScaleSys absval φ id ι) (piv : Bool
     simp
 
 
+/-- the member functions for `rows() ≥ 4` are the LU path -/
+theorem solve_scale_ge4 (H : ScaleSys absval φ ψ χ) (piv : Bool) {m : Nat} (A : Mat (m + 4) K) (b : Vec (m + 4) K) :
+    solve piv absval (mapMat φ A) (mapVec ψ b) = mapRes (mapVec χ) (solve piv absval A b) :=
+  solveLU_scale H piv A b
+
+theorem invert_scale_ge4 {ι : K → K} (H : ScaleSys absval φ id ι) (piv : Bool) {m : Nat} (A : Mat (m + 4) K) :
+    invert piv absval (mapMat φ A) = mapRes (mapMat ι) (invert piv absval A) :=
+  invertLU_scale H piv A
+
+theorem determinant_scale_ge4 (H : ScaleSys absval φ ψ χ) (hleft : ∀ x a, φ x * a = φ (x * a)) (hzero : φ 0 = 0)
+    (piv : Bool) {m : Nat} (A : Mat (m + 4) K) :
+    determinant piv absval (mapMat φ A) = φ^[m + 4] (determinant piv absval A) :=
+  detLU_scale H hleft hzero piv A
+
 end Generic
+
+/-! ### instance 1: an exact field, `x ↦ c·x` with `c ≠ 0` -/
+section Exact
+variable {K Q : Type} [Field K] [LinearOrder Q] [Zero Q]
+
+theorem scaleSys_field {absval : K → Q} {c : K} (hc : c ≠ 0) (d : K)
+    (h0 : ∀ x, absval x = 0 ↔ x = 0)
+    (hlt : ∀ x y, absval (c * x) < absval (c * y) ↔ absval x < absval y) :
+    ScaleSys absval (fun x => c * x) (fun x => d * x) (fun x => d / c * x) where
+  abs_lt := hlt
+  abs_zero x := by rw [h0, h0]; simp [hc]
+  div_φ a b := mul_div_mul_left a b hc
+  mul_φ f b := by ring
+  sub_φ a b := by ring
+  mul_ψ f b := by ring
+  sub_ψ a b := by ring
+  mul_χ a x := by field_simp
+  div_χ r a := by rw [mul_div_mul_comm]
+
+theorem scaleSys_field_inv {absval : K → Q} {c : K} (hc : c ≠ 0)
+    (h0 : ∀ x, absval x = 0 ↔ x = 0)
+    (hlt : ∀ x y, absval (c * x) < absval (c * y) ↔ absval x < absval y) :
+    ScaleSys absval (fun x => c * x) id (fun x => c⁻¹ * x) where
+  abs_lt := hlt
+  abs_zero x := by rw [h0, h0]; simp [hc]
+  div_φ a b := mul_div_mul_left a b hc
+  mul_φ f b := by ring
+  sub_φ a b := by ring
+  mul_ψ f b := rfl
+  sub_ψ a b := rfl
+  mul_χ a x := by simp only [id]; field_simp
+  div_χ r a := by simp only [id]; rw [div_eq_mul_inv, div_eq_mul_inv, mul_inv]; ring
+
+theorem iterate_mul_const (c : K) (m : Nat) (x : K) : (fun y => c * y)^[m] x = c ^ m * x := by
+  induction m generalizing x with
+  | zero => simp
+  | succ m ih => rw [Function.iterate_succ_apply, ih]; ring
+
+end Exact
+
+/-! ### instance 2: rounded arithmetic, when the rounding commutes with the scaling -/
+section Rounded
+variable {R : Rounding} {Q : Type} [LinearOrder Q] [Zero Q]
+
+theorem FlR.ext' {a b : FlR R} (h : a.val = b.val) : a = b := by
+  cases a; cases b; simp_all
+
+/-- `x ↦ c·x` on `FlR R` (an exact operation: no rounding) -/
+def scaleFl (c : ℝ) (x : FlR R) : FlR R := ⟨c * x.val⟩
+
+theorem scaleSys_fl {absval : FlR R → Q} {c d : ℝ} (hc : c ≠ 0)
+    (hflc : ∀ x, R.fl (c * x) = c * R.fl x) (hfld : ∀ x, R.fl (d * x) = d * R.fl x)
+    (hfldc : ∀ x, R.fl (d / c * x) = d / c * R.fl x)
+    (h0 : ∀ x, absval (scaleFl c x) = 0 ↔ absval x = 0)
+    (hlt : ∀ x y, absval (scaleFl c x) < absval (scaleFl c y) ↔ absval x < absval y) :
+    ScaleSys absval (scaleFl c) (scaleFl d) (scaleFl (d / c)) where
+  abs_lt := hlt
+  abs_zero := h0
+  div_φ a b := by
+    apply FlR.ext'
+    show R.fl (c * a.val / (c * b.val)) = R.fl (a.val / b.val)
+    rw [mul_div_mul_left _ _ hc]
+  mul_φ f b := by
+    apply FlR.ext'
+    show R.fl (f.val * (c * b.val)) = c * R.fl (f.val * b.val)
+    rw [← hflc]; congr 1; ring
+  sub_φ a b := by
+    apply FlR.ext'
+    show R.fl (c * a.val - c * b.val) = c * R.fl (a.val - b.val)
+    rw [← hflc]; congr 1; ring
+  mul_ψ f b := by
+    apply FlR.ext'
+    show R.fl (f.val * (d * b.val)) = d * R.fl (f.val * b.val)
+    rw [← hfld]; congr 1; ring
+  sub_ψ a b := by
+    apply FlR.ext'
+    show R.fl (d * a.val - d * b.val) = d * R.fl (a.val - b.val)
+    rw [← hfld]; congr 1; ring
+  mul_χ a x := by
+    apply FlR.ext'
+    show R.fl (c * a.val * (d / c * x.val)) = d * R.fl (a.val * x.val)
+    rw [← hfld]; congr 1; field_simp
+  div_χ r a := by
+    apply FlR.ext'
+    show R.fl (d * r.val / (c * a.val)) = d / c * R.fl (r.val / a.val)
+    rw [← hfldc, mul_div_mul_comm]
+
+theorem scaleSys_fl_inv {absval : FlR R → Q} {c : ℝ} (hc : c ≠ 0)
+    (hflc : ∀ x, R.fl (c * x) = c * R.fl x) (hflci : ∀ x, R.fl (c⁻¹ * x) = c⁻¹ * R.fl x)
+    (h0 : ∀ x, absval (scaleFl c x) = 0 ↔ absval x = 0)
+    (hlt : ∀ x y, absval (scaleFl c x) < absval (scaleFl c y) ↔ absval x < absval y) :
+    ScaleSys absval (scaleFl c) id (scaleFl c⁻¹) where
+  abs_lt := hlt
+  abs_zero := h0
+  div_φ a b := by
+    apply FlR.ext'
+    show R.fl (c * a.val / (c * b.val)) = R.fl (a.val / b.val)
+    rw [mul_div_mul_left _ _ hc]
+  mul_φ f b := by
+    apply FlR.ext'
+    show R.fl (f.val * (c * b.val)) = c * R.fl (f.val * b.val)
+    rw [← hflc]; congr 1; ring
+  sub_φ a b := by
+    apply FlR.ext'
+    show R.fl (c * a.val - c * b.val) = c * R.fl (a.val - b.val)
+    rw [← hflc]; congr 1; ring
+  mul_ψ f b := rfl
+  sub_ψ a b := rfl
+  mul_χ a x := by
+    apply FlR.ext'
+    show R.fl (c * a.val * (c⁻¹ * x.val)) = R.fl (a.val * x.val)
+    congr 1; field_simp
+  div_χ r a := by
+    apply FlR.ext'
+    show R.fl (r.val / (c * a.val)) = c⁻¹ * R.fl (r.val / a.val)
+    rw [← hflci]; congr 1
+    rw [div_eq_mul_inv, div_eq_mul_inv, mul_inv]; ring
+
+theorem scaleFl_mul_left {c : ℝ} (hflc : ∀ x, R.fl (c * x) = c * R.fl x) (x a : FlR R) :
+    scaleFl c x * a = scaleFl c (x * a) := by
+  apply FlR.ext'
+  show R.fl (c * x.val * a.val) = c * R.fl (x.val * a.val)
+  rw [← hflc]; congr 1; ring
+
+theorem scaleFl_zero (c : ℝ) : scaleFl c (0 : FlR R) = 0 := by
+  apply FlR.ext'
+  show c * (0 : ℝ) = 0
+  simp
+
+theorem iterate_scaleFl (c : ℝ) (m : Nat) (x : FlR R) : ((scaleFl c)^[m] x).val = c ^ m * x.val := by
+  induction m generalizing x with
+  | zero => simp
+  | succ m ih => rw [Function.iterate_succ_apply, ih]; simp only [scaleFl]; ring
+
+/-- the usual magnitude `|x|` is compatible with every scaling `c ≠ 0` -/
+theorem abs_scale_zero {c : ℝ} (hc : c ≠ 0) (x : FlR R) :
+    (fun y : FlR R => |y.val|) (scaleFl c x) = 0 ↔ (fun y : FlR R => |y.val|) x = 0 := by
+  simp [scaleFl, hc]
+
+theorem abs_scale_lt {c : ℝ} (hc : c ≠ 0) (x y : FlR R) :
+    (fun z : FlR R => |z.val|) (scaleFl c x) < (fun z : FlR R => |z.val|) (scaleFl c y) ↔
+      (fun z : FlR R => |z.val|) x < (fun z : FlR R => |z.val|) y := by
+  simp only [scaleFl, abs_mul]
+  exact mul_lt_mul_iff_right₀ (abs_pos.mpr hc)
+
+end Rounded
 end DV.C02.Scale
+
